@@ -236,6 +236,49 @@ def DOM_COL(m, f):
     return m.cols[f]
 
 
+def _earlier_call(c, sizer, lid, dt, nonneg):
+    """some earlier call of the same sizer object on an arbitrary other (valid) weight vector; its own correctness is not
+    the point here (it is the same obligation at another input) - only that it leaves nothing behind"""
+    t0 = c.time('dt_of_an_earlier_call')
+    if c.mode == 'conc':
+        gen = (lambda r: r.choice([0.25, 0.5, 1.0, 2.0])) if nonneg else (lambda r: r.choice([-0.5, 0.25, 0.5, -1.0, 2.0]))
+        other = num_map(c, 'weights_of_an_earlier_call', gen=gen, pgen=lambda r: r.random() < 0.6)
+        try:
+            sizer(t0, other)
+        except ValueError:
+            pass
+        return
+    other = SymMap.fresh('weights_of_an_earlier_call')
+    dom, col = other.dom, other.cols['']
+    add_universal(lambda k: z3.Implies(z3.Select(dom, k), z3.And(z3.Not(PNANF(lift(t0), k)), PRICEF(lift(t0), k) > 0)))
+    if nonneg:
+        add_universal(lambda k: z3.Implies(z3.Select(dom, k), z3.Select(col, k) >= 0))
+    spec0 = _SizerLoop(lambda q, k: [], t0)
+    spec0.kernel = lambda L, env, k: []          # (no obligations from the earlier call)
+    heap.LOOPSPEC[lid] = lambda l, it, env: _QuietLoop(l, it, env, spec0)
+    try:
+        try:
+            sizer(t0, other)
+        except ValueError:
+            raise heap.Abort()
+    finally:
+        heap.LOOPSPEC.pop(lid, None)
+
+
+class _QuietLoop(heap.MapLoop):
+    """the cut loop of the earlier call: its invariant is assumed, none of its obligations is recorded"""
+
+    def havoc(self, env, names):
+        c = ctx()
+        n = len(c.obs)
+        out = super().havoc(env, names)
+        del c.obs[n:]
+        return out
+
+    def preserved(self, env):
+        raise heap.Abort()
+
+
 def _run_sizer(c, sizer, dt, wts, state, S, clause, clause_zero):
     if c.mode == 'conc':
         return sizer(dt, wts)
@@ -570,3 +613,52 @@ def ls_rejections(c):
 
 
 canary('leverage check allows zero', LS, '_check_set_gross_leverage', 'gross_leverage <= 0.0', 'gross_leverage < 0.0')(ls_rejections)
+
+
+# ------------------------------------------------------------------------------------- statelessness
+def _stateless(c, cls, pname, lid, nonneg):
+    """an earlier sizing with OTHER weights on the same sizer object leaves nothing behind: the target of the next call
+       has exactly the keys of ITS weight vector (structure only; the per-asset arithmetic is the main harness)"""
+    w = c.key('w')
+    param = c.real(pname, lambda r: r.choice([0.05, 0.5, 1.0]))
+    c.assume(AND(GT(param, 0), LE(param, 1)))
+    sizer, E, r, dlog = setup(c, cls, param, pname)
+    dt = c.time('dt')
+    _earlier_call(c, sizer, lid, dt, nonneg)
+    wts = _weights(c, signed=not nonneg)
+    if c.mode == 'sym':
+        dom, col = DOM(wts), wts.cols['']
+        add_universal(lambda k: z3.Implies(z3.Select(dom, k), z3.And(z3.Not(PNANF(lift(dt), k)), PRICEF(lift(dt), k) > 0)))
+        if nonneg:
+            add_universal(lambda k: z3.Implies(z3.Select(dom, k), z3.Select(col, k) >= 0))
+        spec = _SizerLoop(lambda q, k: [], dt)
+        heap.LOOPSPEC[lid] = lambda l, it, env: heap.MapLoop(l, it, env, spec)
+    else:
+        if nonneg:
+            c.assume(all(v >= 0 for v in wts.values()))
+    try:
+        try:
+            res = sizer(dt, wts)
+        except ValueError:
+            return
+    finally:
+        heap.LOOPSPEC.pop(lid, None)
+    c.ob('target-has-exactly-the-keys-of-this-call', IFF(HAS(res, w), HAS(wts, w)) if c.mode == 'sym' else set(res) == set(wts))
+
+
+@harness('DollarWeightedCashBufferedOrderSizer.stateless', props=['C10'], also=['C09'], layer='L3',
+         functions=['DollarWeightedCashBufferedOrderSizer.__init__', 'DollarWeightedCashBufferedOrderSizer.__call__'])
+def dw_stateless(c):
+    """long-only sizer: an earlier call does not influence the next target"""
+    _stateless(c, DW, 'cash_buffer_percentage', DW_LOOP, True)
+
+
+@harness('LongShortLeveragedOrderSizer.stateless', props=['C11'], also=['C09'], layer='L3',
+         functions=['LongShortLeveragedOrderSizer.__init__', 'LongShortLeveragedOrderSizer.__call__'])
+def ls_stateless(c):
+    """long/short sizer: an earlier call does not influence the next target"""
+    _stateless(c, LS, 'gross_leverage', LS_LOOP, False)
+
+
+canary('target dictionary kept on the sizer object', DW, '__call__', 'target_portfolio = {}', 'target_portfolio = self.__dict__.setdefault("_kept_target", {})')(dw_stateless)
+canary('target dictionary kept on the sizer object (long/short)', LS, '__call__', 'target_portfolio = {}', 'target_portfolio = self.__dict__.setdefault("_kept_target", {})')(ls_stateless)
